@@ -56,9 +56,8 @@ ASSUMPTIONS = [
     'fork, no after_fork, no signal handlers); SystemExit is never used as a '
     'task outcome there; sockets are not used as unpicklable leaves because '
     'billiard.reduction makes them picklable (DupFd via resource_sharer)',
-    'MaybeEncodingError.args are not compared (they are re-repr()ed by every '
-    'unpickling - reported as a finding); the generator sets enc_args=False '
-    'and the skipped comparisons are counted under excluded_by_construction',
+    'MaybeEncodingError.args are compared too (the re-repr() defect this check '
+    'found was repaired: fix commit 3ed0205, replays/regress/C12-D16-*)',
     'the traceback module is asked to extract_tb + format_exception at the '
     'first and the last stage of every record; between stages extract_tb '
     'results are compared without the source text (files of the repo may be '
@@ -153,9 +152,9 @@ def workloop_cases(max_tasks):
         'quota': st.one_of(st.none(), st.none(), st.integers(1, 8)),
         'synack': st.sampled_from([False, False, True]),
         'k': st.integers(1, 3),
-        # True would also compare MaybeEncodingError.args with what the loop
-        # built - a known finding, see ASSUMPTIONS; kept out by construction
-        'enc_args': st.just(False),
+        # also compare MaybeEncodingError.args with what the loop built (the
+        # re-repr() defect found here was repaired by the fix commit 3ed0205)
+        'enc_args': st.just(True),
     })
 
 
@@ -680,7 +679,7 @@ def run(ctx):
         return wrapped
 
     ctx.explore('einfo', einfo_cases(), collect(execute_einfo),
-                n=ctx.pick(400, 8000), shrink_budget=120)
+                n=ctx.pick(400, 7000), shrink_budget=120)
     ctx.explore('workloop', workloop_cases(ctx.pick(8, 14)),
-                collect(execute_workloop), n=ctx.pick(200, 3500),
+                collect(execute_workloop), n=ctx.pick(200, 3000),
                 shrink_budget=120)
